@@ -35,9 +35,9 @@ while args:
 # function -> (file, [properties]) from the anchors' mechanism lists (hand-normalised to real paths)
 T = [
  ("internal/flight/flight12/flight3handler.go", ["flight3Parse", "handleResumption"], ["C01", "C03", "C04", "C14", "C11", "C02"]),
- ("internal/flight/flight12/flight4handler.go", ["flight4Parse", "flight4Generate"], ["C01", "C03", "C04", "C14"]),
+ ("internal/flight/flight12/flight4handler.go", ["flight4Parse", "flight4Generate"], ["C01", "C03", "C04", "C14", "C11"]),
  ("internal/flight/flight12/flight4bhandler.go", ["flight4bParse"], ["C04", "C14"]),
- ("internal/flight/flight12/flight5handler.go", ["flight5Parse", "initializeCipherSuite"], ["C03", "C04", "C01"]),
+ ("internal/flight/flight12/flight5handler.go", ["flight5Parse", "initializeCipherSuite"], ["C03", "C04", "C01", "C11"]),
  ("internal/flight/flight12/flight0handler.go", ["flight0Parse", "flight0Generate", "handleHelloResume"], ["C11", "C13", "C14"]),
  ("internal/flight/flight12/flight2handler.go", ["flight2Parse"], ["C13", "C04"]),
  ("internal/negotiation/retry.go", ["ValidateHelloVerifyRequestResponse", "ValidateClientHelloRetry"], ["C13", "C04"]),
@@ -126,8 +126,9 @@ def main():
         results = json.load(open(out)).get("mutants", [])
     done = {(r["file"], r["line"], r["op"]) for r in results}
     first = os.path.join(VERIF, "seeded", "mutation-sweep.json")
-    if os.path.exists(first):
-        done |= {(r["file"], r["line"], r["op"]) for r in json.load(open(first)).get("mutants", [])}
+    for first in (first, os.path.join(VERIF, 'seeded', 'mutation-sweep-2.json')):
+      if os.path.exists(first):
+          done |= {(r["file"], r["line"], r["op"]) for r in json.load(open(first)).get("mutants", [])}
     env = dict(os.environ, VERIF_REPO=WT, VERIF_EVIDENCE_DIR="/var/tmp/verif-mutsweep-evidence-%d" % part[0], VERIF_CASE_TIMEOUT="60")
     try:
         for (f, names, props) in T[part[0]::part[1]]:
